@@ -129,3 +129,17 @@ Definition good_tok (tk : tok) : bool :=
     else match txt with [c] => (k =? code c) && in_cats c [1; 2; 3; 4; 6; 8; 10; 11; 12] | _ => false end
   end.
 End Author.
+
+(* ---- tokens as the tokenizer makes them under the ordinary codes (hypothesis of the parser theorems, Proofs/MathParseProofs.v):
+   a control sequence (an active character only in the form active::c), or one character carrying its own category;
+   the group and math-shift characters are { } $ ---- *)
+Definition canon (t : tok) : bool :=
+  match t with
+  | Tok k txt =>
+    if k =? CC_ESCAPE then match active_char txt with Some c => which_code default_table c =? CC_ACTIVE | None => true end
+    else match txt with
+         | [c] => (k =? which_code default_table c) && in_cats default_table c [1; 2; 3; 4; 6; 7; 8; 10; 11; 12]
+                  && implb (k =? 1) (c =? 123) && implb (k =? 2) (c =? 125) && implb (k =? 3) (c =? 36)
+         | _ => false
+         end
+  end.
